@@ -239,6 +239,20 @@ func RunCheck(prop string, opt CheckOptions) *CheckResult {
 				cfg.Extra = append(cfg.Extra, ExtraPkg{Dir: filepath.Join(mod, q.ID), Pattern: "./" + q.ID})
 				family = append(family, RouteSet{ID: q.ID, Templates: []RouteTemplate{{Path: fmt.Sprintf("security alternatives %v", q.Alts)}}})
 			}
+			// second sentence of the property: the per-scheme attach/extract functions
+			cfam := CredFamily()
+			if opt.Tier == "thorough" {
+				cfam = append(cfam, CredFamilySampled(12)...)
+			}
+			if _, cerr := GenerateCredFamily(opt.RepoDir, cfam, scratch); cerr != nil {
+				famErr = cerr
+			} else {
+				for _, q := range cfam {
+					cfg.Extra = append(cfg.Extra, ExtraPkg{Dir: filepath.Join(mod, q.ID), Pattern: "./" + q.ID})
+					b, _ := json.Marshal(q.Schemes)
+					family = append(family, RouteSet{ID: q.ID, Templates: []RouteTemplate{{Path: "security schemes: " + string(b)}}})
+				}
+			}
 		}
 	}
 	if pc.Family == "router" {
